@@ -236,8 +236,12 @@ func TestVerifC20BrokerHerd(t *testing.T) {
 				c20Answer(i, st, sid)
 			}
 		}()
+		noClient := k%6 == 5
 		go func() {
 			defer wg.Done()
+			if noClient {
+				return // no client for this proxy: its poll runs into the timeout (idle path)
+			}
 			time.Sleep(time.Until(t0.Add(delay)))
 			c20Offer(i, st, cnat)
 		}()
